@@ -186,6 +186,9 @@ class World:
                 o = O[a["o"] - 1]
                 target = ["m", "cm", "s"][a["u"] - 1]
                 self.res = {"t": "obj", "o": self.oid(o.to(target if self.nstep % 2 else self.osyris.units(target)))}
+            elif op == "vset":
+                v, src = O[a["o"] - 1], O[a["src"] - 1]
+                setattr(v, "xyz"[a["c"] - 1], type(src)(values=src.values.copy(), unit=src.unit))
             elif op == "sortkey":
                 g = G[a["g"] - 1]
                 g.sortby(a["k"])
@@ -201,6 +204,9 @@ class World:
                 y = O[a["rhs"] - 1] if a["rhs"] else (2 if self.nstep % 2 else 2.0)
                 if a["rhs"] == 0 and x.dtype.kind == "i":
                     y = 2
+                if a.get("q"):
+                    import osyris
+                    y = y.unit._REGISTRY.Quantity(y._array, y.unit)      # wraps the buffer of rhs, no copy
                 r = IOPS[a["f"]](x, y)
                 self.res = {"t": "obj", "o": self.oid(r)}
             elif op == "eq":
